@@ -97,6 +97,8 @@ class HRobust(Harness):
         else:
             Y = rng.uniform(0, 5, size=(N, 1)).round(3)
         s2 = np.full((N, 1), 0.25) if noise else None
+        if s2 is not None and p.get("symY", False) and not eng.concrete:
+            s2 = to_obj(s2)
         gp.s2 = None if s2 is None else s2.copy()
         out = Out()
         err = None
